@@ -10,7 +10,8 @@ import sys
 import vlib
 
 HERE = os.path.dirname(os.path.abspath(__file__))
-PROOFS = ["MgProof.C12.Lemmas", "MgProof.C12.LemmasAes", "MgProof.C12.LemmasDes", "MgProof.C12.Props"]
+PROOFS = ["MgProof.C12.Lemmas", "MgProof.C12.LemmasStream", "MgProof.C12.LemmasAes", "MgProof.C12.LemmasAesKey",
+          "MgProof.C12.LemmasDes", "MgProof.C12.LemmasApi", "MgProof.C12.Props", "MgProof.C12.Kat"]
 GREP = ["MgModel/C12", "MgProof/C12", "MgModel/Common", "Drv/C12.lean"]
 REPO_SRCS = ["muggle/c/crypt/aes.c", "muggle/c/crypt/des.c", "muggle/c/crypt/tdes.c",
              "muggle/c/crypt/parity.c", "muggle/c/crypt/crypt_utils.c",
